@@ -9,7 +9,7 @@ RULE = ("correspondence: all four pairing implementations of the model vs the re
         "elements; predicates on the real code: optimized pairing == reference pairing of the same curve, product of 1..6 Miller values through "
         "one final exponentiation == product of the pairings, final_exponentiate(x) == x ** ((p^12-1)/r) and exp_by_p(x) == x ** p")
 HYPOTHESES = []
-NOT_YET_PROVED = ['optimized bn128 Miller loop (signed digits) == reference bn128 after final exponentiation: exact FQ12 correspondence of all four implementations + predicates (BLS12-381 is a theorem: C12_Miller)']
+NOT_YET_PROVED = []
 ASSUMPTIONS = []
 nontrivial = nontrivial_default
 CHUNK = 1
